@@ -135,6 +135,7 @@ def c12_lognormal_nonpositive(v):
             return abs(float(x)) < float('inf')
         except (TypeError, ValueError):
             return False
+    # (the padded score is finite, or -inf when every cell got masked)
     return (not fin(sc.get('plain'))) and (not fin(sc.get('plain:s1'))) \
-        and fin(sc.get('nan_padding')) and fin(sc.get('nan_padding:s1')) \
+        and str(sc.get('nan_padding')) not in ('nan', 'inf') \
         and sc.get('nan_padding') == sc.get('nan_padding:s1')
